@@ -125,7 +125,7 @@ func (s *Sched) park(point string, try func() bool) {
 
 // optInPoints are yield points that sit inside critical sections of their
 // callers in general; they are only honoured by checks that enable them.
-var optInPoints = map[string]bool{"multiapp-opened": true}
+var optInPoints = map[string]bool{"multiapp-opened": true, "vlog-held": true}
 
 // EnablePoint turns an opt-in yield point on for this run.
 func (s *Sched) EnablePoint(p string) {
@@ -150,8 +150,17 @@ func (s *Sched) Yield(point string) {
 	s.park(point, nil)
 }
 
+// gateOnly lock gates are not scheduling points of their own: the task only
+// parks there when the lock is busy (held by a parked or blocked task).
+var gateOnly = map[string]bool{"store.csm-r": true, "store.csm-w": true, "store.singleVLogMu": true}
+
 // BeforeLock is a scheduling point that is only released while try() holds.
-func (s *Sched) BeforeLock(point string, try func() bool) { s.park(point, try) }
+func (s *Sched) BeforeLock(point string, try func() bool) {
+	if gateOnly[point] && try() {
+		return
+	}
+	s.park(point, try)
+}
 
 // GoStart registers the calling goroutine as task name#k and parks it.
 func (s *Sched) GoStart(name string) {
